@@ -96,14 +96,13 @@ Fixpoint has_literal (t : ty) : bool :=
 (* instructions without sub-programs. [strict = true]: the proved fragment (no set/map instruction) *)
 Definition tc_simple (strict : bool) (i : instr) (s : sty) : option sty :=
   match i with
-  | I_EXEC => if strict then None else
-              match s with
+  | I_EXEC => match s with
               | a :: TLambda a' b :: r => if ty_eqb a a' then Some (b :: r) else None
               | _ => None
               end
-  | I_APPLY => if strict then None else
-               match s with
-               | a :: TLambda (TPair a' b) c :: r => if ty_eqb a a' && has_literal a then Some (TLambda b c :: r) else None
+  | I_APPLY => match s with
+               | a :: TLambda (TPair a' b) c :: r =>
+                   if ty_eqb a a' && has_literal a && negb (strict && has_coll a) then Some (TLambda b c :: r) else None
                | _ => None
                end
   | I_EMPTY_SET k => if negb strict && comparable k then Some (TSet k :: s) else None
@@ -223,7 +222,6 @@ Fixpoint typecheck_gen (strict : bool) (i : instr) (s : sty) {struct i} : option
       end
   | I_FAILWITH => match s with _ :: _ => Some Failing | [] => None end
   | I_LAMBDA a b body =>
-      if strict then None else
       match typecheck_gen strict body [a] with
       | Some (Typed [b']) => if ty_eqb b b' then Some (Typed (TLambda a b :: s)) else None
       | Some Failing => Some (Typed (TLambda a b :: s))
@@ -330,3 +328,40 @@ Fixpoint typecheck_gen (strict : bool) (i : instr) (s : sty) {struct i} : option
 Definition typecheck : instr -> sty -> option tcres := typecheck_gen false.
 (* ... restricted to MAP bodies that keep the element type *)
 Definition typecheck_nr : instr -> sty -> option tcres := typecheck_gen true.
+
+(* the body of a lambda value maps [a] to [b] (or always fails), in the proved fragment *)
+Definition lam_body_ok (a b : ty) (body : instr) : bool :=
+  match typecheck_nr body [a] with
+  | Some (Typed [b']) => ty_eqb b b'
+  | Some Failing => true
+  | _ => false
+  end.
+
+(* "v is a well-formed pytezos value of type t": the class is t at every level, naturals are >= 0 *)
+Fixpoint pv_typedb (v : pval) (t : ty) {struct v} : bool :=
+  match v, t with
+  | PInt _, TInt => true
+  | PNat z, TNat => (0 <=? z)%Z
+  | PMutez z, TMutez => (0 <=? z)%Z && (z <? mutez_bound)%Z
+  | PTimestamp _, TTimestamp => true
+  | PAddress _, TAddress => true
+  | PChainId _, TChainId => true
+  | PStr _, TString => true
+  | PBytes _, TBytes => true
+  | PBool _, TBool => true
+  | PUnit, TUnit => true
+  | PPair x y, TPair a b => pv_typedb x a && pv_typedb y b
+  | PNone t', TOption a => ty_eqb t' a
+  | PSome x, TOption a => pv_typedb x a
+  | PLeft x tr, TOr a b => pv_typedb x a && ty_eqb tr b
+  | PRight tl y, TOr a b => ty_eqb tl a && pv_typedb y b
+  | PList t' l, TList a => ty_eqb t' a && forallb (fun x => pv_typedb x a) l
+  | PSet t' l, TSet a => ty_eqb t' a && forallb (fun x => pv_typedb x a) l && py_strict_sorted l
+  | PMap kt vt l, TMap a b =>
+      ty_eqb kt a && ty_eqb vt b
+      && forallb (fun x => match x with PPair k v => pv_typedb k a && pv_typedb v b | _ => false end) l
+      && py_strict_sorted (map py_key l)
+  | PLam a b body, TLambda a' b' => ty_eqb a a' && ty_eqb b b' && lam_body_ok a b body
+  | _, _ => false
+  end.
+
